@@ -23,12 +23,19 @@ ASSUMPTIONS = ["equality of the numerical roots is a tolerance statement: both s
 
 
 def param_points(tier, r):
-    pts = [dict(alpha=0.05, psi=0.8, cs2=1 / 3, cb2=1 / 3, Tn=1.0),      # bag: mu == nu (defect C15-T fixed in 108cf41)
+    pts = [dict(alpha=0.2, psi=0.7, cs2=1 / 3, cb2=1 / 3, Tn=1.0),      # bag: mu == nu (defect C15-T fixed in 108cf41)
            dict(alpha=0.3, psi=0.6, cs2=0.3, cb2=0.25, Tn=100.0),
            dict(alpha=0.005, psi=0.95, cs2=0.25, cb2=0.32, Tn=0.01)]
-    for _ in range(2 if tier == "quick" else 25):
-        pts.append(dict(alpha=10 ** r.uniform(-3, 0), psi=r.uniform(0.5, 1.0), cs2=r.uniform(0.2, 1 / 3), cb2=r.uniform(0.2, 1 / 3),
-                        Tn=10 ** r.uniform(-2.5, 2.5)))
+    want = len(pts) + (3 if tier == "quick" else 30)
+    tries = 0
+    while len(pts) < want and tries < 2000:
+        tries += 1
+        p = dict(alpha=10 ** r.uniform(-3, 0), psi=r.uniform(0.5, 1.0), cs2=r.uniform(0.2, 1 / 3), cb2=r.uniform(0.2, 1 / 3),
+                 Tn=10 ** r.uniform(-2.5, 2.5))
+        e = make_eos(p)
+        # a well-defined transition: positive vacuum energy (WallGo itself refuses epsilon < 0) and p_+ < p_- at Tn
+        if e.eps > 0 and e.pHighT(e.Tnucl) < e.pLowT(e.Tnucl):
+            pts.append(p)
     return pts
 
 
@@ -49,7 +56,7 @@ def close(a, b, tol):
 
 def search(rep: C.Report, tier: str, broken):
     r = C.rng("C15")
-    nv = 5 if tier == "quick" else 14
+    nv = 9 if tier == "quick" else 16
     for p in param_points(tier, r):
         e = make_eos(p)
         if not (e.pHighT(e.Tnucl) < e.pLowT(e.Tnucl)):
